@@ -46,5 +46,8 @@ func fullExplanation(p *Prop) string {
 		}
 		s += " " + x
 	}
+	if x, ok := round3Explain[p.ID]; ok {
+		s += " Added after round 3: " + x
+	}
 	return s
 }
